@@ -19,7 +19,7 @@ func selftestDeterminism(args []string) {
 	only := fs.String("only", "", "restrict to engine/prop/mode entries containing this text")
 	fs.Parse(args)
 	type ep struct{ engine, prop, mode, bin string }
-	eps := []ep{{"hist", "C05", "", ""}, {"hist", "C07", "", ""}, {"hist", "C08", "", ""}, {"hist", "C11", "", ""}, {"hist", "C01", "", ""}, {"hist", "C11", "tornsweep:3/32", ""},
+	eps := []ep{{"hist", "C05", "", ""}, {"hist", "C07", "", ""}, {"hist", "C08", "", ""}, {"hist", "C11", "", ""}, {"hist", "C01", "", ""}, {"hist", "C11", "tornsweep:3/32", ""}, {"hist", "C07", "synthsel:3/1", ""},
 		{"fault", "C04", "", ""}, {"fault", "C01", "", ""}, {"sched", "C10", "", ""}, {"cli", "C15", "", ""},
 		{"hist", "C05", "clock", "fg"}, {"hist", "C01", "panicinj", "fg"}}
 	if *only != "" {
